@@ -26,6 +26,16 @@ theorem dualBin_pow (x y : DVal K) :
       D.add (D.mul (D.mul (D.pow x.val (D.sub y.val D.one)) y.val) x.der)
             (D.mul (D.mul (D.pow x.val y.val) (D.fn "ln" x.val)) y.der),
       x.ok && y.ok && decide (x.val ≠ D.zero)⟩ := rfl
+/-- the comparisons: carried -/
+theorem dualBin_cmp (n : String) (hn : n ∈ [">", "<", "!=", "==", "<=", ">="]) (x y : DVal K) :
+    dualBin D n x y = some ⟨D.bop n x.val y.val, D.bop n x.val y.val, x.ok && y.ok⟩ := by
+  simp only [List.mem_cons, List.not_mem_nil, or_false] at hn
+  rcases hn with rfl | rfl | rfl | rfl | rfl | rfl <;> rfl
+/-- `if`, `else`: operand-wise -/
+theorem dualBin_pw (n : String) (hn : n ∈ ["if", "else"]) (x y : DVal K) :
+    dualBin D n x y = some ⟨D.bop n x.val y.val, D.bop n x.der y.der, x.ok && y.ok⟩ := by
+  simp only [List.mem_cons, List.not_mem_nil, or_false] at hn
+  rcases hn with rfl | rfl <;> rfl
 
 end
 
@@ -110,6 +120,53 @@ theorem binRule_pow (f g : ValDer K) : binRule I C t "^" f g =
     | .error e => .error e
     | .ok der => .ok { val := val, der := der } := rfl
 
+theorem binRule_cmp (n : String) (hn : n ∈ [">", "<", "!=", "==", "<=", ">="]) (f g : ValDer K) :
+    binRule I C t n f g =
+    match DeepEx.operateBin I t f.val g.val n.toList, DeepEx.operateBin I t f.val g.val n.toList with
+    | .ok v, .ok d => .ok { val := v, der := d }
+    | .error e, _ => .error e
+    | _, .error e => .error e := by
+  simp only [List.mem_cons, List.not_mem_nil, or_false] at hn
+  rcases hn with rfl | rfl | rfl | rfl | rfl | rfl <;> rfl
+
+theorem binRule_pw (n : String) (hn : n ∈ ["if", "else"]) (f g : ValDer K) :
+    binRule I C t n f g =
+    match DeepEx.operateBin I t f.val g.val n.toList, DeepEx.operateBin I t f.der g.der n.toList with
+    | .ok v, .ok d => .ok { val := v, der := d }
+    | .error e, _ => .error e
+    | _, .error e => .error e := by
+  simp only [List.mem_cons, List.not_mem_nil, or_false] at hn
+  rcases hn with rfl | rfl <;> rfl
+
+/-- `operate_bin` succeeds only with an operator `find_bin_op` finds -/
+theorem operateBin_ok_find (a b r : DeepEx K) (repr : Str) (h : a.operateBin I t b repr = .ok r) :
+    ∃ op, findBinOp t repr = .ok op := by
+  unfold DeepEx.operateBin at h
+  cases hop : findBinOp t repr with
+  | error e => rw [hop] at h; cases h
+  | ok op => exact ⟨op, rfl⟩
+
+/-- a successful rule of a comparison, `if` or `else` has found the operator in the table -/
+theorem binRule_ok_find (n : String) (hn : n ∈ [">", "<", ">=", "<=", "==", "!=", "if", "else"])
+    (f g pd : ValDer K) (h : binRule I C t n f g = .ok pd) : ∃ op, findBinOp t n.toList = .ok op := by
+  have hv : ∃ v, DeepEx.operateBin I t f.val g.val n.toList = .ok v := by
+    by_cases hc : n ∈ [">", "<", "!=", "==", "<=", ">="]
+    · rw [binRule_cmp I C t n hc] at h
+      split at h
+      · rename_i v d h1 h2; exact ⟨v, h1⟩
+      · cases h
+      · cases h
+    · have hp : n ∈ ["if", "else"] := by
+        simp only [List.mem_cons, List.not_mem_nil, or_false] at hn hc ⊢
+        grind
+      rw [binRule_pw I C t n hp] at h
+      split at h
+      · rename_i v d h1 h2; exact ⟨v, h1⟩
+      · cases h
+      · cases h
+  obtain ⟨v, hv⟩ := hv
+  exact operateBin_ok_find I t _ _ v _ hv
+
 end
 
 section
@@ -118,14 +175,53 @@ variable {K : Type} [DecidableEq K] (I : Interp K) (C : CalcOps K) (t : Table) (
 include A L
 
 /-- **the binary rules are sound** on represented operands inside the domain of the rule -/
-theorem binRule_sound (uln : Nat) (hln : findUnaryOp t "ln".toList = .ok uln)
-    (name : String) (hname : name ∈ ["+", "-", "*", "/", "^"])
+theorem binRule_sound (hbop : BopAssoc I t) (uln : Nat) (hln : findUnaryOp t "ln".toList = .ok uln)
+    (name : String) (hname : name ∈ binRuleNames)
     (f g pd : ValDer K) (a a' b b' : K)
     (hfv : Rep I T ρ f.val a) (hfd : Rep I T ρ f.der a')
     (hgv : Rep I T ρ g.val b) (hgd : Rep I T ρ g.der b')
     (h : binRule I C t name f g = .ok pd) (w : DVal K)
     (hw : dualBin (dArith I C t) name ⟨a, a', true⟩ ⟨b, b', true⟩ = some w) (hok : w.ok = true) :
     Rep I T ρ pd.val w.val ∧ Rep I T ρ pd.der w.der := by
+  by_cases hcmp : name ∈ [">", "<", "!=", "==", "<=", ">="]
+  · -- the comparisons: value and derivative are the comparison of the values
+    have h8 : name ∈ [">", "<", ">=", "<=", "==", "!=", "if", "else"] := by
+      simp only [List.mem_cons, List.not_mem_nil, or_false] at hcmp ⊢
+      grind
+    rw [dualBin_cmp _ name hcmp] at hw
+    cases hw
+    obtain ⟨op, hop⟩ := binRule_ok_find I C t name h8 f g pd h
+    rw [binRule_cmp I C t name hcmp] at h
+    split at h
+    · rename_i v d h1 h2
+      cases h
+      have r1 := (gbin I C t A T ρ _ op hop (hbop name h8 op hop) _ _ _ _ _ hfv hgv h1).1.rep
+      have r2 := (gbin I C t A T ρ _ op hop (hbop name h8 op hop) _ _ _ _ _ hfv hgv h2).1.rep
+      have e := dArith_bop I C t name op hop a b
+      exact ⟨r1.congr I T ρ e.symm, r2.congr I T ρ e.symm⟩
+    · cases h
+    · cases h
+  by_cases hpw : name ∈ ["if", "else"]
+  · -- `if`, `else`: operand-wise
+    have h8 : name ∈ [">", "<", ">=", "<=", "==", "!=", "if", "else"] := by
+      simp only [List.mem_cons, List.not_mem_nil, or_false] at hpw ⊢
+      grind
+    rw [dualBin_pw _ name hpw] at hw
+    cases hw
+    obtain ⟨op, hop⟩ := binRule_ok_find I C t name h8 f g pd h
+    rw [binRule_pw I C t name hpw] at h
+    split at h
+    · rename_i v d h1 h2
+      cases h
+      have r1 := (gbin I C t A T ρ _ op hop (hbop name h8 op hop) _ _ _ _ _ hfv hgv h1).1.rep
+      have r2 := (gbin I C t A T ρ _ op hop (hbop name h8 op hop) _ _ _ _ _ hfd hgd h2).1.rep
+      exact ⟨r1.congr I T ρ (dArith_bop I C t name op hop a b).symm,
+        r2.congr I T ρ (dArith_bop I C t name op hop a' b').symm⟩
+    · cases h
+    · cases h
+  have hname : name ∈ ["+", "-", "*", "/", "^"] := by
+    simp only [binRuleNames, List.mem_cons, List.not_mem_nil, or_false] at hname hcmp hpw ⊢
+    grind
   simp only [List.mem_cons, List.not_mem_nil, or_false] at hname
   rcases hname with rfl | rfl | rfl | rfl | rfl
   · -- "+"
